@@ -179,12 +179,22 @@ fn format_variant(
                     if field_attr.skip {
                         quote!(format!("{{ \"{}\": \"{}\" }}", #tag, #ts_name))
                     } else {
-                        quote!(format!("{{ \"{}\": \"{}\" }} & {}", #tag, #ts_name, #parsed_ty))
+                        quote!(format!(
+                            "{{ \"{}\": \"{}\" }} & {}",
+                            #tag,
+                            #ts_name,
+                            #crate_rename::intersection_operand(#parsed_ty)
+                        ))
                     }
                 }
                 Fields::Unit => quote!(format!("{{ \"{}\": \"{}\" }}", #tag, #ts_name)),
                 _ => {
-                    quote!(format!("{{ \"{}\": \"{}\" }} & {}", #tag, #ts_name, #parsed_ty))
+                    quote!(format!(
+                        "{{ \"{}\": \"{}\" }} & {}",
+                        #tag,
+                        #ts_name,
+                        #crate_rename::intersection_operand(#parsed_ty)
+                    ))
                 }
             },
         },
